@@ -515,4 +515,143 @@ theorem mergePy_sim {ms mr lo : Nat} {s1 : LS} {acc : Dict} (step : SRef)
           rw [h.1, h.2.1]
           rfl
 
+/-! ### the loop -/
+
+theorem foldl_mergePy_sim {ms mr lo base : Nat} (s : LS) (steps : List SRef)
+    (hsteps : ∀ x ∈ steps, x < ms ∧ ∀ rr, (s.step x).reaches = some rr → rr < mr ∧ (s.reach rr).stepExpressions < base)
+    (hb : base ≤ lo) :
+    ∀ (s1 : LS) (acc : Dict), FrameAt s s1 ms mr lo → ms ≤ s.stepD.length → mr ≤ s.reachD.length →
+      lo ≤ s.exprL.length → AccFresh ms mr s1 acc → AccInv lo (absStore s1) (absAcc s1 acc) →
+      (steps.map (absStep s)).foldl (mergeStepHG true) (absStore s1, absAcc s1 acc) =
+        (absStore (steps.foldl mergePy (s1, acc)).1,
+          absAcc (steps.foldl mergePy (s1, acc)).1 (steps.foldl mergePy (s1, acc)).2) ∧
+      AccFresh ms mr (steps.foldl mergePy (s1, acc)).1 (steps.foldl mergePy (s1, acc)).2 ∧
+      AccInv lo (absStore (steps.foldl mergePy (s1, acc)).1)
+        (absAcc (steps.foldl mergePy (s1, acc)).1 (steps.foldl mergePy (s1, acc)).2) ∧
+      FrameAt s (steps.foldl mergePy (s1, acc)).1 ms mr lo := by
+  induction steps with
+  | nil => intro s1 acc hF _ _ _ hfr hinv; exact ⟨rfl, hfr, hinv, hF⟩
+  | cons x xs ih =>
+    intro s1 acc hF hms hmr hlo hfr hinv
+    have hx := hsteps x (by simp)
+    have hms1 : ms ≤ s1.stepD.length := Nat.le_trans hms hF.step_len
+    have hmr1 : mr ≤ s1.reachD.length := Nat.le_trans hmr hF.reach_len
+    have hlo1 : lo ≤ s1.exprL.length := Nat.le_trans hlo hF.list_len
+    have habs : absStep s1 x = absStep s x := by
+      apply absStep_congr (step_of_get (hF.step_eq _ hx.1))
+      intro rr hrr
+      exact reach_of_get (hF.reach_eq _ (hx.2 rr hrr).1)
+    obtain ⟨e1, f1, F1⟩ := mergePy_sim (lo := lo) x hms1 hmr1 hlo1 (Nat.lt_of_lt_of_le hx.1 hms1) hfr hinv
+    have hsx : ∀ ov l, (absStep s1 x).reaches = some (ov, l) → l < base := by
+      intro ov l h
+      rw [habs] at h
+      unfold absStep at h
+      cases hr : (s.step x).reaches with
+      | none => simp [hr] at h
+      | some rr =>
+        simp only [hr, Option.map_some, Option.some.injEq, Prod.mk.injEq] at h
+        rw [← h.2]; exact (hx.2 rr hr).2
+    have i1 := (mergeStepH_sim (absStep s1 x) hinv hsx hb (by rw [absStore_length]; exact hlo1)).1
+    rw [e1] at i1
+    have := ih (fun y hy => hsteps y (List.mem_cons_of_mem _ hy)) _ _ (hF.trans F1) hms hmr hlo f1 i1
+    rw [List.map_cons, List.foldl_cons, List.foldl_cons, ← habs, e1]
+    exact this
+
+/-! ### the recursion over `superAsset` -/
+
+theorem absLangH_findAsset (s : LS) (t : String) :
+    (absLangH s).findAsset t = (s.assets.find? (fun a => a.name == t)).map (absAsset s) := by
+  unfold LangH.findAsset absLangH
+  simp only
+  induction s.assets with
+  | nil => rfl
+  | cons a as ih =>
+    simp only [List.map_cons, List.find?_cons]
+    have : (absAsset s a).name = a.name := rfl
+    rw [this]
+    by_cases h : a.name = t
+    · simp [h]
+    · have hb : (a.name == t) = false := by simp [h]
+      simp [h, hb, ih]
+
+theorem absLang_findAsset (s : LS) (t : String) :
+    (absLang s).findAsset t =
+      (s.assets.find? (fun a => a.name == t)).map (fun a => readAsset (absStore s) (absAsset s a)) := by
+  unfold absLang
+  rw [readLang_findAsset, absLangH_findAsset, Option.map_map]; rfl
+
+/-- **tie, raising direction**: the translated lookup raises (`RecursionError`) exactly when the `extends` walk from
+the type does not end within the fuel (an `extends` cycle) -/
+theorem attacksPy_error (s : LS) : ∀ (fuel : Nat) (t : String), (absLang s).chainOK fuel t = false →
+    attacksPy fuel s t = .error .recursionError := by
+  intro fuel
+  induction fuel with
+  | zero => intro t _; rfl
+  | succ f ih =>
+    intro t h
+    unfold Lang.chainOK at h
+    rw [absLang_findAsset] at h
+    unfold attacksPy
+    cases hfa : s.assets.find? (fun a => a.name == t) with
+    | none => simp [hfa] at h
+    | some a =>
+      simp only [hfa, Option.map_some] at h ⊢
+      have hsup : (readAsset (absStore s) (absAsset s a)).superAsset = pyTruthyStr a.superAsset := rfl
+      rw [hsup] at h
+      cases hp : pyTruthyStr a.superAsset with
+      | none => simp [hp] at h
+      | some p =>
+        simp only [hp] at h ⊢
+        rw [ih p h]
+
+/-- **tie**: on a well-formed heap, when the `extends` walk from `t` ends within the fuel, the translated lookup
+returns; the list store it leaves and its answer are those of the hand-written heap-level resolver
+`resolveHG true`; every object of the answer is fresh and unshared; no cell that existed at entry — in any of the
+three stores — has changed -/
+theorem attacksPy_sim (s : LS) (bs br bl : Nat) (hwf : SpecBelow s bs br bl) :
+    ∀ (fuel : Nat) (t : String), (absLang s).chainOK fuel t = true →
+    ∃ s' acc, attacksPy fuel s t = .ok (s', acc) ∧
+      resolveHG true (absLangH s) fuel (absStore s) t = (absStore s', absAcc s' acc) ∧
+      AccFresh s.stepD.length s.reachD.length s' acc ∧
+      AccInv s.exprL.length (absStore s') (absAcc s' acc) ∧
+      FrameAt s s' s.stepD.length s.reachD.length s.exprL.length := by
+  intro fuel
+  induction fuel with
+  | zero => intro t h; simp [Lang.chainOK] at h
+  | succ f ih =>
+    intro t h
+    unfold Lang.chainOK at h
+    rw [absLang_findAsset] at h
+    unfold attacksPy resolveHG
+    rw [absLangH_findAsset]
+    cases hfa : s.assets.find? (fun a => a.name == t) with
+    | none =>
+      exact ⟨s, [], rfl, rfl, accFresh_nil _ _ _, accInv_nil _ _, FrameAt.refl _ _ _ _⟩
+    | some a =>
+      simp only [hfa, Option.map_some] at h ⊢
+      have hmem : a ∈ s.assets := List.mem_of_find?_eq_some hfa
+      have hsteps : ∀ x ∈ a.attackSteps, x < s.stepD.length ∧
+          ∀ rr, (s.step x).reaches = some rr → rr < s.reachD.length ∧ (s.reach rr).stepExpressions < bl := by
+        intro x hx
+        refine ⟨Nat.lt_of_lt_of_le (hwf.step_lt a hmem x hx) hwf.hs, fun rr hrr => ?_⟩
+        exact ⟨Nat.lt_of_lt_of_le (hwf.reach_lt a hmem x hx rr hrr) hwf.hr, hwf.list_lt a hmem x hx rr hrr⟩
+      have hsup : (readAsset (absStore s) (absAsset s a)).superAsset = pyTruthyStr a.superAsset := rfl
+      have hsupH : (absAsset s a).superAsset = pyTruthyStr a.superAsset := rfl
+      have hstepsH : (absAsset s a).steps = a.attackSteps.map (absStep s) := rfl
+      rw [hsup] at h
+      rw [hsupH, hstepsH]
+      cases hp : pyTruthyStr a.superAsset with
+      | none =>
+        simp only []
+        have := foldl_mergePy_sim (lo := s.exprL.length) s a.attackSteps hsteps hwf.hl s []
+          (FrameAt.refl _ _ _ _) (Nat.le_refl _) (Nat.le_refl _) (Nat.le_refl _) (accFresh_nil _ _ _) (accInv_nil _ _)
+        exact ⟨_, _, rfl, this.1, this.2.1, this.2.2.1, this.2.2.2⟩
+      | some p =>
+        simp only [hp] at h ⊢
+        obtain ⟨s1, acc1, e1, r1, f1, i1, F1⟩ := ih p h
+        rw [e1, r1]
+        have := foldl_mergePy_sim (lo := s.exprL.length) s a.attackSteps hsteps hwf.hl s1 acc1
+          F1 (Nat.le_refl _) (Nat.le_refl _) (Nat.le_refl _) f1 i1
+        exact ⟨_, _, rfl, this.1, this.2.1, this.2.2.1, this.2.2.2⟩
+
 end MalVerif.Py.TieLang
